@@ -94,7 +94,7 @@ func genCmdWord(r *rand.Rand) string {
 	case 4:
 		w += "\\~"
 	case 5:
-		w = "'" + pick(r, []string{"a|b", "(?:x)", "[a-z]+", "foo@", "ls"})
+		w = "'" + pick(r, []string{"a|b", "(?:x)", "[a-z]+", "foo@", "ls", "git@", "home~", "ls\\s", "v\\d", "a\\@", "x\\~", "@", "~"})
 	}
 	return w
 }
